@@ -698,16 +698,143 @@ def read_eml_contract():
     )
 
 
+# ---- the router, as seen from this pack --------------------------------------------------
+# get_extractor is verified in contracts/C07.py (functional contract: the result is a function of the path, decided by
+# extension tables / mimetypes).  Here it is used through that contract's *shape* only: a deterministic partial function of
+# the path -- GE_RAISES(path) (ExtractionFileFormatNotSupportedError) or the pair (GE_MOD(path), GE_FN(path)).  The one
+# place where its table content matters -- the constant paths "attachment.<file type>" of the MIME fallback -- is covered
+# by the lemmas `mime-fallback-routes.<type>` below, proved from C07's contract with the real values of
+# str.lower / os.path.splitext on those constants.
+GE_RAISES = fun("router_get_extractor_raises", S, B)
+GE_MOD = fun("router_get_extractor_module", S, S)
+GE_FN = fun("router_get_extractor_function", S, S)
+NOTSUP = "ExtractionFileFormatNotSupportedError"
+
+
+def facts_for(s_):
+    """Real values of the uninterpreted externals of contracts/C07.py on a constant path (DESIGN 2.5.3b)."""
+    import mimetypes
+    import os
+    from contracts import C07
+    low = s_.lower()
+    root, ext = os.path.splitext(low)
+    mt = mimetypes.guess_type(low)[0]
+    L = z3.StringVal(low)
+    facts = [C07.LOWER(z3.StringVal(s_)) == L, C07.E(L) == z3.StringVal(ext), C07.ROOT(L) == z3.StringVal(root),
+             C07.MNONE(L) == z3.BoolVal(mt is None)]
+    if mt is not None:
+        facts.append(C07.M(L) == z3.StringVal(mt))
+    return facts
+
+
+def fallback_types():
+    from contracts import C07
+    return list(dict.fromkeys(C07.tables()[3].values()))
+
+
+def fallback_facts():
+    """What the lemmas `mime-fallback-routes.<type>` establish about get_extractor on the fallback paths."""
+    from contracts import C07
+    REG = C07.tables()[0]
+    out = []
+    for v in fallback_types():
+        if v not in REG:
+            continue
+        c = z3.StringVal("attachment." + v)
+        out.append(z3.And(z3.Not(GE_RAISES(c)), GE_MOD(c) == z3.StringVal(REG[v][0]), GE_FN(c) == z3.StringVal(REG[v][1])))
+    return z3.And(out)
+
+
+def lemmas():
+    from contracts import C07
+    REG, _ALI, _COMP, MIMES = C07.tables()
+    out = []
+    for v in fallback_types():
+        c = "attachment." + v
+        p = C07.LOWER(z3.StringVal(c))
+        is_none, val = C07.ft_spec(p)
+        out.append((f"C16/router.py::spec/lemma#mime-fallback-routes.{v}", facts_for(c) + [C07.splitext_axioms(z3.StringVal(c.lower()))],
+                    z3.And(z3.Not(is_none), val == z3.StringVal(v), z3.BoolVal(v in REG))))
+    return out
+
+
 def router_contracts(reg):
-    """router / mime_types contracts: verified by the C07 pack, reused here as assumed-verified."""
     from contracts import C07
     out = []
     for c in C07.contracts(reg):
-        if c.target.startswith(C07.ROUTER) or c.target.startswith(C07.MIME):
+        if c.target.startswith(C07.MIME):
             c.assumed = True
             c.note = "verified by the C07 pack"
             out.append(c)
+
+    def path_t(c):
+        return c.args["path"].t
+
+    out.append(FnContract(
+        target=f"{C07.ROUTER}::get_extractor", params=[("path", p_str())], assumed=True,
+        returns=lambda c: VTuple([VStr(GE_MOD(path_t(c))), VStr(GE_FN(path_t(c)))]),
+        ensures=[("returns-only-when-supported", lambda c: z3.Not(GE_RAISES(path_t(c))))],
+        raises=[Raises(NOTSUP, when=lambda c: GE_RAISES(path_t(c)))],
+        note="shape of the contract verified by the C07 pack: a deterministic partial function of the path"))
     return out
+
+
+# ============================================== (f) EmailContent.iterate_supported_attachments ==
+def isa_contract():
+    from contracts import C07
+    ENC = "ExtractionFileEncryptedError"
+    REG, _ALI, _COMP, MIMES = C07.tables()
+
+    def att_terms(att):
+        f = lambda name, sort: fld("EmailAttachment", name, sort)(att)
+        return f("filename", S), f("mime_type", S), f("data", M.BioS), f("is_supported_mime_type", B)
+
+    def spec_extractor(fn, mt):
+        """(defined Bool, module term, function term): the extractor the statement asks for -- the one the file on its own
+        (named `filename`) is routed to; when the router has none for the name, the one registered for the file type of the
+        attachment's MIME type (mime_types table); undefined (attachment skipped) when neither exists."""
+        mime_hit = z3.Or([mt == z3.StringVal(k) for k in MIMES])
+        mod, fnn = M.EMPTY, M.EMPTY
+        for k, ft in reversed(list(MIMES.items())):
+            mod = z3.If(mt == z3.StringVal(k), z3.StringVal(REG[ft][0]), mod)
+            fnn = z3.If(mt == z3.StringVal(k), z3.StringVal(REG[ft][1]), fnn)
+        routed = z3.Not(GE_RAISES(fn))
+        return z3.Or(routed, mime_hit), z3.If(routed, GE_MOD(fn), mod), z3.If(routed, GE_FN(fn), fnn)
+
+    def inv(lc):
+        st = lc.st
+        disp = st.ghost.get("dispatch", ())
+        if not disp:
+            return Conj([("dispatch", z3.BoolVal(True)), ("stream", z3.BoolVal(True))])
+        att = lc.seq.elem(z3.simplify(lc.i - 1)).t
+        fn, mt, data, flag = att_terms(att)
+        bad = Conj([("dispatch", z3.BoolVal(False)), ("stream", z3.BoolVal(False))])
+        if len(disp) != 1:
+            return bad
+        (f, args, pos) = disp[0]
+        if not (len(args) == 2 and isinstance(args[0], VExt) and isinstance(args[1], VStr)):
+            return bad
+        defined, mod, fnn = spec_extractor(fn, mt)
+        goals = [flag, args[0].t == data, args[1].t == fn, defined, f.items[0].t == mod, f.items[1].t == fnn]
+        at_call = [pv for (a, pv) in pos if a is args[0]]
+        after = st.ghost.get(("pos", args[0].t.get_id()))
+        stream = [at_call[0] == 0 if at_call and at_call[0] is not None else z3.BoolVal(False),
+                  after == 0 if after is not None else z3.BoolVal(False)]
+        return Conj([("dispatch", z3.And(goals)), ("stream", z3.And(stream))])
+
+    def raised_by_extractor(c):
+        return z3.BoolVal(c.exc is not None and "extractor call" in str(c.exc.attrs.get("site", "")))
+
+    return FnContract(
+        target=f"{DT}::EmailContent.iterate_supported_attachments",
+        params=[("self", p_ext("EmailContent"))],
+        hyps=lambda c: fallback_facts(),
+        generator=True,
+        raises=[Raises(ENC, sub=True, when=raised_by_extractor, label="only the encrypted-file error of an attachment's extractor escapes")],
+        loops={0: LoopSpec(inv=inv, label="attachments")},
+        note="per supported attachment: extractor = router(filename), else the one registered for its MIME type; called with "
+             "(attachment.data, attachment.filename) at stream position 0; position reset afterwards",
+    )
 
 
 def contracts(reg):
@@ -716,6 +843,7 @@ def contracts(reg):
     out.extend(router_contracts(reg))
     out.append(eml_contract())
     out.append(read_eml_contract())
+    out.append(isa_contract())
     out.append(split_contract())
     out.append(body_contract())
     out.append(pem_contract())
